@@ -87,11 +87,16 @@ def rule_codec(rep: Report, idx) -> None:
 					r.violate(f'reader-strips-one:{d}', (m.relpath, c_.lineno), f'Pattern.make takes the text of a {d}...{d} terminal as `{bsrc}`: strip()/replace() remove every edge (or inner) occurrence of the delimiter, so a terminal whose text itself ends or begins with `{d}` (e.g. the regexp /:|\\//) comes back shorter than it was printed and from_ast(parse(pretty(g))) != g', bsrc)
 				elif isinstance(body, ast.Subscript) and isinstance(body.slice, ast.Slice) and unparse(body.slice) == '1:-1':
 					r.ok(f'reader-strips-one:{d}', (m.relpath, c_.lineno))
+				elif isinstance(body, ast.Call) and isinstance(body.func, ast.Attribute) and isinstance(body.func.value, ast.Name) and body.func.value.id in ('cls', 'self') and len(body.args) == 1 and isinstance(body.args[0], ast.Subscript) and isinstance(body.args[0].slice, ast.Slice) and unparse(body.args[0].slice) == '1:-1':
+					# `cls.__unescape(expression[1:-1])`: the delimiters are removed by the slice, the helper works on the text between them
+					r.ok(f'reader-strips-one:{d}', (m.relpath, c_.lineno))
 				elif isinstance(body, ast.Call) or isinstance(body, ast.Name):
 					r.skip(f'reader-strips-one:{d}', (m.relpath, c_.lineno), f'delimiter removal `{bsrc}` not recognised')
 	# is the reader's un-escaping restricted to exact two-character terminals?
-	restricted = any(isinstance(n, ast.Compare) and isinstance(n.left, ast.Call) and unparse(n.left.func) == 'len' and isinstance(n.ops[0], ast.Eq) and unparse(n.comparators[0]) == '2' for n in nodes(mx, ast.Compare))
-	unescapes = any(isinstance(n, ast.Attribute) and n.attr.endswith('__space_codes') for n in nodes(mx))
+	from vlib.match import closure as closure_
+	mxs = closure_(make)  # Pattern.make and the same-class helpers it calls
+	restricted = any(isinstance(n, ast.Compare) and isinstance(n.left, ast.Call) and unparse(n.left.func) == 'len' and isinstance(n.ops[0], ast.Eq) and unparse(n.comparators[0]) == '2' for n in nodes(mxs, ast.Compare))
+	unescapes = any(isinstance(n, ast.Attribute) and n.attr.endswith('__space_codes') for n in nodes(mxs))
 	# writer: comp -> (delimiter, expression transformed?)
 	writer = {}
 	px = X(pp)
@@ -113,6 +118,28 @@ def rule_codec(rep: Report, idx) -> None:
 		verbatim = expr == f'{pparam}.expression'
 		if verbatim:
 			r.ok(f'text:{comp}', (m.relpath, line))
+			if comp == 'Comps.Equals' and unescapes:
+				# Pattern.make decodes "\n" .. to the control character and the printer writes the text verbatim: the printed grammar holds the raw
+				# character between quotes, and the `string` terminal of the meta-grammar (both artifacts) must accept that token
+				pc = m.cls('Pattern')
+				codes = next((v for k, v in pc.class_attrs.items() if k.endswith('__space_codes')), None) if pc else None
+				try:
+					table = ast.literal_eval(codes) if codes is not None else None
+				except ValueError:
+					table = None
+				if not isinstance(table, dict):
+					r.skip('string-terminal-admits-decoded-codes', (m.relpath, line), 'Pattern.__space_codes is no longer a constant dict')
+				else:
+					for lark_path, rules_path, _ in PAIRS[:1]:
+						left = metagram.rules_of(metagram.read_grammar(_read(lark_path), lark_path)).get('string')
+						right = metagram.rules_of(metagram.read_rules_module(_read(rules_path), rules_path)).get('string')
+						for art, rule in ((lark_path, left), (rules_path, right)):
+							if rule is None or rule[1][2][0] != 'regexp':
+								r.skip(f'string-terminal-admits-decoded-codes:{art}', (art, 1), 'terminal `string` is not a regexp rule')
+								continue
+							rx = rule[1][2][1][1:-1]
+							bad = [k for k, ch in sorted(table.items()) if re.fullmatch(rx, f'"{ch}"') is None]
+							r.check(not bad, f'string-terminal-admits-decoded-codes:{art}', (art, 1), f'the `string` terminal /{rx}/ of {art} does not match a quoted {["\\" + k for k in bad]} control character, but Pattern.make decodes these escapes and Prettier prints the decoded character between quotes: a rule set with such a terminal (gram_rules and py_rules themselves have "\\n") is printed to text the meta-grammar rejects, so from_ast(parse(pretty(g))) == g fails (`.` does not match a line feed under fullmatch without DOTALL)', rx)
 		else:
 			# the printer transforms the text: the reader must invert it for every terminal, not only for exact two-character escapes
 			general = unescapes and not restricted and comp == 'Comps.Equals'
